@@ -605,7 +605,7 @@ REPLAYS['C06'] = replay_pos
 # C07  position command replays games; move notation round-trips
 
 
-@check('C07', ['C07.v'])
+@check('C07', ['C07.v', 'C07pos.v'])
 def c07(ctx):
     games, plies = (200, 160) if ctx.quick else (8000, 200)
     cases, impl, model, model_raw, notes, stats = line_stream(ctx, 'game', 'g07', [games, plies])
@@ -828,7 +828,7 @@ def crash_violation(ctx, p, prop_note):
                     signature=sig(ctx.pid, 'crash', p['fen'], j.go))
 
 
-@check('C04', ['C04.v'])
+@check('C04', ['C04.v', 'C04chess.v'])
 def c04(ctx):
     n = 1000 if ctx.quick else 30000
     pos = search_batch(ctx, n)
@@ -1034,7 +1034,7 @@ def c05(ctx):
 CLOSE = 20800
 
 
-@check('C03', ['C03.v', 'C03chess.v'])
+@check('C03', ['C03.v', 'C03chess.v', 'C03total.v'])
 def c03(ctx):
     n = 160 if ctx.quick else 3000
     allp = [p for p in S.positions(ctx, n, extra_seed=3) if p['nlegal'] > 0]
@@ -1399,7 +1399,7 @@ def strip_log(cls):
     return cls.rsplit('|', 1)[0] if '|' in cls else cls
 
 
-@check('C17', ['C17.v'])
+@check('C17', ['C17.v', 'C17full.v'])
 def c17(ctx):
     nscripts, nlines = (48, 22) if ctx.quick else (3000, 30)
     rng = ctx.rng
@@ -1488,7 +1488,7 @@ CAPTURE_HEAVY = ['qqqqkqqq/8/8/8/8/8/8/QQQQKQQQ w - - 0 1', 'rnbqkbnr/8/8/8/8/8/
                  'q3k2q/1q4q1/2q2q2/3qq3/3QQ3/2Q2Q2/1Q4Q1/Q3K2Q w - - 0 1']
 
 
-@check('C18', ['C18.v'])
+@check('C18', ['C18.v', 'C18chess.v'])
 def c18(ctx):
     jobs = []
     # move numbers a GUI can send
